@@ -282,3 +282,65 @@ theorem applyForward_single (l : Lookup) (hall : l.subtables.all Subtable.isSing
             simp only [hI1q q, h2, if_false, h3]
 
 end RbModel.Gsub
+
+namespace RbModel.Gsub
+open RbModel RbModel.Buf RbModel.Mem
+
+theorem single_not_reverse (l : Lookup) (hall : l.subtables.all Subtable.isSingle = true) : l.reverse = false := by
+  unfold Lookup.reverse
+  cases hs : l.subtables with
+  | nil => simp
+  | cons st rest =>
+    rw [hs] at hall
+    simp only [List.all_cons, Bool.and_eq_true] at hall
+    have : st.isReverse = false := by
+      cases st <;> simp [Subtable.isSingle] at hall <;> rfl
+    simp [this]
+
+/-- `apply_string` of a single-substitution lookup: the glyph string is mapped glyph by glyph. -/
+theorem applyString_single (l : Lookup) (hall : l.subtables.all Subtable.isSingle = true) (c : Ctx) (fuel : Nat)
+    (hsu : c.buf.successful = true) (hlen : c.buf.len ≤ c.buf.info.length) (hf : c.buf.len ≤ fuel) :
+    ∃ c', applyString c l fuel = .ok c' ∧ c'.buf.len = c.buf.len ∧ c'.buf.info.length = c.buf.info.length ∧
+      c'.buf.successful = true ∧ c'.buf.haveOutput = (if c.buf.len = 0 ∨ c.lookupMask = 0 then c.buf.haveOutput else false) ∧
+      ∀ q, c'.buf.info[q]? = if q < c.buf.len
+                             then (c.buf.info[q]?).map (substInfo c.font c.lookupMask l.props l.subtables)
+                             else c.buf.info[q]? := by
+  unfold applyString
+  by_cases h0 : (c.buf.len == 0 || c.lookupMask == 0) = true
+  · simp only [h0, if_true, pure, Except.pure]
+    have h0' : c.buf.len = 0 ∨ c.lookupMask = 0 := by simpa using h0
+    refine ⟨c, rfl, rfl, rfl, hsu, by simp [h0'], ?_⟩
+    intro q
+    by_cases hq : q < c.buf.len
+    · simp only [hq, if_true]
+      rcases h0' with h | h
+      · omega
+      · -- lookup mask 0: nothing is enabled
+        cases hx : c.buf.info[q]? with
+        | none => rfl
+        | some x =>
+          simp only [Option.map_some]
+          congr 1
+          unfold substInfo
+          simp [h]
+    · simp only [hq, if_false]
+  · have h0' : ¬ (c.buf.len = 0 ∨ c.lookupMask = 0) := by simpa using h0
+    simp only [h0, Bool.false_eq_true, if_false, single_not_reverse l hall, Bool.not_false, if_true]
+    obtain ⟨I, hres, hIlen, hIq⟩ := applyForward_single l hall fuel
+      { c with lookupProps := l.props, buf := { c.buf.clearOutput with idx := 0 } } 0
+      rfl rfl hsu rfl rfl (Nat.zero_le _) hlen rfl (by simpa [clearOutput] using hf)
+    simp only [bind, Except.bind, hres]
+    -- sync on the finished in-place pass
+    unfold sync
+    simp only [clearOutput, Bool.not_true, Bool.false_eq_true, if_false, Nat.lt_irrefl, gt_iff_lt, hsu,
+      bind, Except.bind, pure, Except.pure]
+    unfold nextGlyphs
+    simp only [if_true, Bool.false_or, bne_self_eq_false, Bool.false_eq_true, if_false, Nat.sub_self,
+      Nat.add_zero, pure, Except.pure]
+    refine ⟨_, rfl, rfl, by simpa [clearOutput] using hIlen, by simpa using hsu, by simp [h0'], ?_⟩
+    intro q
+    have := hIq q
+    simp only [clearOutput, Nat.zero_le, true_and] at this
+    simpa using this
+
+end RbModel.Gsub
